@@ -171,7 +171,89 @@ LAYER = Layer("real-startup-race", st_case, run, {"quick": 300, "thorough": 1500
 # finalizer (the library's own ResourceWarning "unclosed ..." is the witness).
 
 
+async def _accept_external_group_main(case: dict) -> dict:
+    """low-level ListenerSocketAdapter.serve(handler, task_group) with a task group that lives in ANOTHER task: the group is
+    cancelled right after a peer connected while serve() keeps running - whatever was accepted must still be closed"""
+    import socket
+    import warnings
+
+    from easynetwork.lowlevel.api_async.backend._asyncio.backend import AsyncIOBackend
+    from easynetwork.lowlevel.api_async.backend._asyncio.stream.listener import AcceptedSocketFactory, ListenerSocketAdapter
+
+    backend = AsyncIOBackend()
+    res: dict[str, Any] = {"counts": {"conn": 0, "disc": 0}}
+    peers: list[socket.socket] = []
+    with warnings.catch_warnings(record=True) as caught:
+        warnings.simplefilter("always", ResourceWarning)
+        lsock = socket.socket()
+        lsock.bind(("127.0.0.1", 0))
+        lsock.listen(8)
+        listener = ListenerSocketAdapter(backend, lsock, AcceptedSocketFactory())
+        group_ready = asyncio.Event()
+        holder: dict[str, Any] = {}
+
+        async def handler(stream: Any) -> None:
+            res["counts"]["conn"] += 1
+            try:
+                await stream.recv(10)
+            finally:
+                res["counts"]["disc"] += 1
+                await stream.aclose()
+
+        async def group_owner() -> None:
+            async with backend.create_task_group() as tg:
+                holder["tg"] = tg
+                group_ready.set()
+                await asyncio.sleep(3600)
+
+        owner = asyncio.create_task(group_owner())
+        await group_ready.wait()
+        serve_task = asyncio.create_task(listener.serve(handler, holder["tg"]))
+        for _ in range(3):
+            await asyncio.sleep(0)
+        try:
+            for gap in case["connect_gaps"]:
+                for _ in range(gap):
+                    await asyncio.sleep(0)
+                p = socket.socket()
+                p.settimeout(5)
+                p.connect(lsock.getsockname())
+                p.setblocking(False)
+                peers.append(p)
+            for _ in range(case["ticks"]):
+                await asyncio.sleep(0)
+            owner.cancel()  # aborts the group (and every task in it); serve() is not one of them
+            await asyncio.gather(owner, return_exceptions=True)
+            res["serve_running_after_group_abort"] = not serve_task.done()
+            for _ in range(10):
+                await asyncio.sleep(0)
+            gc.collect()
+            still_open = 0
+            delivered = getattr(asyncio.get_running_loop(), "delivered_fds", set())
+            for p in peers:
+                if repr(p.getsockname()) not in delivered:
+                    continue  # still in the kernel's accept queue: the library never saw it
+                try:
+                    p.recv(10)
+                except BlockingIOError:
+                    still_open += 1
+                except OSError:
+                    pass
+            res["still_open"] = still_open
+            serve_task.cancel()
+            await asyncio.gather(serve_task, return_exceptions=True)
+            await listener.aclose()
+        finally:
+            for p in peers:
+                p.close()
+            lsock.close()
+        res["warnings"] = [str(w.message)[:200] for w in caught if issubclass(w.category, ResourceWarning) and "unclosed" in str(w.message)]
+    return res
+
+
 async def _accept_main(case: dict) -> dict:
+    if case["stop"] == "external-group":
+        return await _accept_external_group_main(case)
     import socket
     import warnings
 
@@ -289,7 +371,12 @@ def run_accept(case: dict) -> Outcome:
         gc.collect()
     detail = {"stop": case["stop"], "ticks": case["ticks"], "peers": len(case["connect_gaps"]), "hooks": r["counts"]}
     if r["still_open"]:
-        raise Violation("connection-left-open", f"{r['still_open']} accepted connection(s) still open at the peer after shutdown + server_close() + gc", **detail)
+        what = (
+            "ten loop iterations after the task group handed to listener.serve() was aborted (serve() itself still running)"
+            if case["stop"] == "external-group"
+            else "after shutdown + server_close() + gc"
+        )
+        raise Violation("connection-left-open", f"{r['still_open']} accepted connection(s) still open at the peer {what}", **detail)
     lib = [w for w in r["warnings"] if "easynetwork" in w or "AsyncioTransport" in w or "socket.socket" in w]
     if lib:
         raise Violation(
@@ -311,7 +398,7 @@ def st_accept_case(draw: st.DrawFn, tier: str) -> dict:
     return {
         "connect_gaps": draw(st.lists(st.integers(0, 4), min_size=1, max_size=3)),
         "ticks": draw(st.integers(0, 12)),
-        "stop": draw(st.sampled_from(["shutdown", "shutdown", "cancel"])),
+        "stop": draw(st.sampled_from(["shutdown", "shutdown", "cancel", "external-group"])),
     }
 
 
